@@ -182,6 +182,23 @@ def run_spec(spec, props=("C08",)):
                 else:
                     A.count["not_converged_skipped"] = A.count.get("not_converged_skipped", 0) + 1
                 A.outcomes.add(hsh(("gen", round(ar, 6))))
+                # the discrete-time sibling with the same general initial condition
+                pp = tau / (tau + gamma)
+                A.evals += 1
+                try:
+                    ardg = EoN.Attack_rate_discrete(Pk, pp, Sk0=dict(Sk0), phiS0=phiS0, phiR0=phiR0, number_its=spec.get("its", 400))
+                    td, Sd, Id, Rd = EoN.EBCM_discrete(N, gpsi, gpsiP, pp, ph, phiR0=phiR0, R0=0, tmax=spec.get("dsteps", 300))
+                except Exception as e:
+                    A.add(V("C08", "Attack_rate_discrete", "histogram+general_ic", "exception", "%s p=%g raised %s: %s" % (tag, pp, type(e).__name__, str(e)[:100]))); continue
+                A.trans.add(("disc-gen", tuple(Nk), vi, pp))
+                if Id[-1] / N < 1e-9:
+                    d = abs(ardg - Rd[-1] / N)
+                    A.max["max_dev_attack_rate_discrete_general_ic"] = max(A.max.get("max_dev_attack_rate_discrete_general_ic", 0.0), d)
+                    A.count["general_ic_compared_discrete"] = A.count.get("general_ic_compared_discrete", 0) + 1
+                    if d > 1e-6:
+                        A.add(V("C08", "Attack_rate_discrete", "histogram+general_ic", "final_size", "%s p=%g: Attack_rate_discrete=%.9f, EBCM_discrete R(inf)/N=%.9f" % (tag, pp, ardg, Rd[-1] / N), (), ardg, Rd[-1] / N))
+                else:
+                    A.count["not_converged_skipped"] = A.count.get("not_converged_skipped", 0) + 1
         A.execs = A.evals
         A.sample = {"spec": spec}
         return A.result(props)
